@@ -144,11 +144,12 @@ CLAIMS = {
              "ExceptIf/Alternative evaluation. rt_closed (a constructed tree yields its truth and the conclusion the selectors "
              "prescribe), rt_dist, c12_rule_tree_rows (single-variable rules: one instance per firing object in domain order with "
              "exactly that conclusion), c12_expected_fire (the prescribed tree's conclusion IS the recursive ripple-down reference "
-             "fireRule, any nesting of refinements and alternatives). The imperative construction equals the prescribed tree: "
-             "c12_build_expected_small, exhaustive decide for all programs up to 4 blocks (a test, stated as such) + tree-shape "
-             "correspondence with the real tree on every run.",
-        note=BASE_NOTE + "Branch-closed conditions, one Add per branch. The equality construction = prescribed tree is not proved "
-             "for all sizes. With caching enabled re-evaluation of trees with alternatives is known finding C05-F4.",
+             "fireRule, any nesting of refinements and alternatives). c12_build_expected: the transliterated imperative "
+             "construction (refineAt / altAt with climb-while-left-operand, buildKids) yields exactly the prescribed tree for EVERY "
+             "surface program (induction over the program with a path/zipper invariant), hence c12_build_fire: the constructed "
+             "tree selects the ripple-down conclusion. Tree-shape correspondence with the real tree on every run.",
+        note=BASE_NOTE + "Branch-closed conditions, one Add per branch; rows theorem for single-variable rules (multi-variable rules by "
+             "correspondence). With caching enabled re-evaluation of trees with alternatives is known finding C05-F4.",
         tech="Lean 4 proof (semantics of the selectors by induction; RDR reference by induction on the surface program) + "
              "kernel-checked small-scope test of the construction + tree-shape and conclusion correspondence"),
     'C04': dict(
